@@ -7,15 +7,7 @@ From SqlModel Require Import Base PyStr SplitDefs Splitter.
 From SqlModel.Gen Require Import CaseTabs SplitTab.
 
 (* ---- keyword spelling up to case and inner whitespace ------------------------------------- *)
-(* every maximal run of str.isspace() characters becomes one blank *)
-Fixpoint collapse_go (sp : cset) (in_run : bool) (t : text) : text :=
-  match t with
-  | [] => []
-  | c :: t' =>
-      if cmem c sp
-      then (if in_run then collapse_go sp true t' else 32%N :: collapse_go sp true t')
-      else c :: collapse_go sp false t'
-  end.
+(* collapse_go: Base/PyStr.v (every maximal run of str.isspace() characters becomes one blank) *)
 Definition collapse (t : text) : text := collapse_go space_set false t.
 Definition has_space (t : text) : bool := existsb (fun c => cmem c space_set) t.
 
@@ -29,13 +21,15 @@ Definition skey (tk : tok) : tok :=
 Definition sig (l : list tok) : list tok :=
   map skey (filter (fun tk => negb (is_ws_tok tk)) l).
 
-(* ---- what the split tables compare LITERALLY (the guard) ---------------------------------- *)
+(* ---- what the split tables compare (the guard; since the tables compare the collapsed, upper-cased
+   spelling it follows from the unguarded relation: SkeletonFacts.guard_free) -------------------- *)
 Definition sk_END_multi : list text :=
   [[69; 78; 68; 32; 73; 70]; [69; 78; 68; 32; 70; 79; 82]; [69; 78; 68; 32; 87; 72; 73; 76; 69]]%N.
-(* unified in ('END IF', 'END FOR', 'END WHILE') *)
-Definition end_multi (tk : tok) : bool := existsb (text_eqb (upper (snd tk))) sk_END_multi.
-(* value.split()[0] == 'GO'  (case-sensitive) *)
-Definition go_word (tk : tok) : bool := text_eqb (first_word space_set (snd tk)) [71; 79]%N.
+(* unified in ('END IF', 'END FOR', 'END WHILE'),  unified = ' '.join(value.upper().split()) *)
+Definition end_multi (tk : tok) : bool :=
+  existsb (text_eqb (join_split space_set (upper (snd tk)))) sk_END_multi.
+(* value.split()[0].upper() == 'GO' *)
+Definition go_word (tk : tok) : bool := text_eqb (upper (first_word space_set (snd tk))) [71; 79]%N.
 
 (* the unguarded token relation: same type, same key *)
 Definition tok_skel0b (a b : tok) : bool :=
@@ -107,6 +101,13 @@ Definition skel0b : list tok -> list tok -> bool := skel_gen false true.
 Definition skelb : list tok -> list tok -> bool := skel_gen true true.
 (* the guard alone, whitespace runs may even appear or vanish *)
 Definition skel_splitb : list tok -> list tok -> bool := skel_gen true false.
+
+(* the one remaining guard (finding C11-comment-after-terminator: EOS_TTYPE lacks Newline): the whitespace
+   runs in front of a token of an end-of-statement type (a single-line comment) agree on containing a break *)
+Definition chunk_brkb (c c' : chunk) : bool :=
+  negb (in_eos eos_ttypes (fst (snd c))) || Bool.eqb (has_brk (fst c)) (has_brk (fst c')).
+Definition brk_agreeb (l l' : list tok) : bool :=
+  forall2b chunk_brkb (fst (chunks l)) (fst (chunks l')).
 
 (* the observable of the splitter C11 talks about: the significant tokens of each statement *)
 Definition stmt_sigs (stmts : list (list tok)) : list (list tok) := map sig stmts.
